@@ -149,7 +149,8 @@ def materialise(world, root):
             finally:
                 os.close(fd)
         elif t == "symlink":
-            os.symlink(n["target"], p)
+            # "$W" in a target stands for the world root (absolute targets)
+            os.symlink(n["target"].replace("$W", root), p)
         elif t == "hardlink":
             os.link(os.path.join(root, n["target"]), p)
         elif t == "fifo":
@@ -383,7 +384,12 @@ class Sandbox:
         if os.path.exists(self.base):
             shutil.rmtree(self.base, ignore_errors=True)
         os.makedirs(self.base)
-        self.root = os.path.join(self.base, tag)
+        # the world sits below six private single-child directories: a walker that escapes upwards
+        # (a relative link target resolved against the wrong base) meets only empty, constant
+        # surroundings, never another worker's sandbox or the harness's own files
+        self.holder = os.path.join(self.base, "i", "s", "o", "l", "a", "t")
+        os.makedirs(self.holder)
+        self.root = os.path.join(self.holder, tag)
         self.world = world
         materialise(world, self.root)
         self.nexec = 0
